@@ -30,4 +30,10 @@ Definition must_compile (e : bytes) : outcome node :=
   | OutOfFuel => OutOfFuel
   end.
 
+(* SyntaxError.HighlightLocation: the expression, a newline, Offset spaces and a
+   caret; strings.Repeat panics on a negative count *)
+Definition highlight_location (e : bytes) (offset : Z) : outcome bytes :=
+  if offset <? 0 then Panic
+  else Ok (e ++ [10%N] ++ repeat 32%N (Z.to_nat offset) ++ [94%N]).
+
 End WithNum.
